@@ -49,6 +49,11 @@ def matches(sm, partial, s):
 
 def is_match_list(sm, partial, r):
   return z3.And(
+      sym.forall([i_], z3.Implies(z3.And(0 <= i_, i_ < r.len),
+                                  matches(sm, partial, r.arr[i_])),
+                 patterns=[r.arr[i_]]),
+      sym.forall([s_], z3.Implies(matches(sm, partial, s_), r.len > 0)),
+      z3.Implies(r.len > 0, matches(sm, partial, r.arr[0])),
       sym.forall([s_], z3.Exists([i_], z3.And(0 <= i_, i_ < r.len, r.arr[i_] == s_))
                  == matches(sm, partial, s_)),
       sym.forall([i_, i2_], z3.Implies(
